@@ -261,9 +261,18 @@ func (p *Program) buildLemmaUnit(l *Lemma) (ur *UnitResult) {
 
 // ------------------------------------------------------------------ SMT assembly
 
-func (g *Gen) prelude(qf bool) string {
+func (g *Gen) prelude(qf bool) string { return g.preludeOpt(qf, false) }
+
+// preludeOpt: with absMul the element-address product emul is an uninterpreted function (a sound weakening:
+// only "unsat" answers of such a query are used).
+func (g *Gen) preludeOpt(qf bool, absMul bool) string {
 	var sb strings.Builder
 	sb.WriteString("(set-option :produce-models true)\n(set-logic ALL)\n")
+	if absMul {
+		sb.WriteString("(declare-fun emul ((_ BitVec 64) (_ BitVec 64)) (_ BitVec 64))\n")
+	} else {
+		sb.WriteString("(define-fun emul ((a (_ BitVec 64)) (b (_ BitVec 64))) (_ BitVec 64) (bvmul a b))\n")
+	}
 	for _, o := range sortedKeys(g.W.opaque) {
 		fmt.Fprintf(&sb, "(declare-sort %s 0)\n", o)
 	}
@@ -333,14 +342,18 @@ func (g *Gen) query(obls []*Obligation, qf bool) string { return g.queryOpt(obls
 // queryOpt: with sliced=true only assumptions in the goal's cone of influence are kept
 // (single obligation only).
 func (g *Gen) queryOpt(obls []*Obligation, qf bool, sliced bool) string {
+	return g.queryAbs(obls, qf, sliced, false)
+}
+
+func (g *Gen) queryAbs(obls []*Obligation, qf bool, sliced bool, absMul bool) string {
 	if sliced && len(obls) == 1 {
-		return g.slicedQuery(obls[0], qf)
+		return g.slicedQuery(obls[0], qf, absMul)
 	}
 	sorted := append([]*Obligation{}, obls...)
 	sort.SliceStable(sorted, func(i, j int) bool { return sorted[i].Seq < sorted[j].Seq })
 	first := sorted[0].Seq
 	var sb strings.Builder
-	sb.WriteString(g.prelude(qf))
+	sb.WriteString(g.preludeOpt(qf, absMul))
 	sb.WriteString(g.body(qf, first))
 	var gs []string
 	prefix := "true"
@@ -376,7 +389,7 @@ func (g *Gen) queryOpt(obls []*Obligation, qf bool, sliced bool) string {
 	return sb.String()
 }
 
-func (g *Gen) slicedQuery(o *Obligation, qf bool) string {
+func (g *Gen) slicedQuery(o *Obligation, qf bool, absMul bool) string {
 	if g.slicer == nil {
 		g.slicer = g.newSlicer()
 	}
@@ -397,7 +410,7 @@ func (g *Gen) slicedQuery(o *Obligation, qf bool) string {
 	goal := oblTerm(o)
 	keep := g.slicer.relevant([]string{goal}, texts)
 	var sb strings.Builder
-	sb.WriteString(g.prelude(qf))
+	sb.WriteString(g.preludeOpt(qf, absMul))
 	sb.WriteString(g.declsText())
 	for i, t := range texts {
 		if keep[i] {
@@ -497,6 +510,19 @@ func (ur *UnitResult) discharge(opt Options) {
 			for _, r := range batch {
 				os_ = append(os_, r.obl)
 			}
+			if g.usedEmul {
+				fileA := write(ur.Unit+"_batch_abs", g.queryAbs(os_, true, false, true))
+				ansA, _ := race(fileA, opt.TimeoutMs, 1, opt.Solvers)
+				if !opt.KeepSMT {
+					os.Remove(fileA)
+				}
+				if ansA.Status == "unsat" {
+					for _, r := range batch {
+						r.Status, r.Solver, r.TimeS, r.Batch, r.Agree = "proved", ansA.Solver, ansA.TimeS, true, 1
+					}
+					return
+				}
+			}
 			file := write(ur.Unit+"_batch", g.query(os_, true))
 			ans, _ := race(file, opt.TimeoutMs, 1, opt.Solvers)
 			if ans.Status == "unsat" {
@@ -583,6 +609,23 @@ func (ur *UnitResult) discharge(opt Options) {
 
 func (ur *UnitResult) solveOne(r *OblResult, opt Options, write func(hint, text string) string) {
 	g := ur.gen
+	if g.usedEmul {
+		// stage 0a: as stage 0 with the element-address products uninterpreted (only "unsat" is trusted)
+		fileA := write(r.Name+"_sliced_abs", g.queryAbs([]*Obligation{r.obl}, true, true, true))
+		ansA, allA := race(fileA, opt.TimeoutMs, opt.Agree, opt.Solvers)
+		if !opt.KeepSMT {
+			os.Remove(fileA)
+		}
+		if ansA.Status == "unsat" {
+			r.Stage, r.Solver, r.TimeS, r.Status = "qf-sliced-absmul", ansA.Solver, ansA.TimeS, "proved"
+			for _, a := range allA {
+				if a.Status == "unsat" {
+					r.Agree++
+				}
+			}
+			return
+		}
+	}
 	// stage 0: quantifier-free and sliced to the goal's cone of influence (only "unsat" is trusted)
 	file0 := write(r.Name+"_sliced", g.queryOpt([]*Obligation{r.obl}, true, true))
 	ans0, all0 := race(file0, opt.TimeoutMs, opt.Agree, opt.Solvers)
@@ -607,6 +650,26 @@ func (ur *UnitResult) solveOne(r *OblResult, opt Options, write func(hint, text 
 	file := write(r.Name, g.query([]*Obligation{r.obl}, true))
 	ans, all := race(file, opt.TimeoutMs, opt.Agree, opt.Solvers)
 	stage := "qf"
+	if ans.Status != "unsat" && ur.Quant && g.usedEmul {
+		// stage 2a: the full query with the element-address products uninterpreted
+		fileA := write(r.Name+"_full_abs", g.queryAbs([]*Obligation{r.obl}, false, false, true))
+		ansA, allA := race(fileA, opt.TimeoutMs, opt.Agree, opt.Solvers)
+		if !opt.KeepSMT {
+			os.Remove(fileA)
+		}
+		if ansA.Status == "unsat" {
+			r.Stage, r.Solver, r.TimeS, r.Status = "full-absmul", ansA.Solver, ansA.TimeS, "proved"
+			for _, a := range allA {
+				if a.Status == "unsat" {
+					r.Agree++
+				}
+			}
+			if !opt.KeepSMT {
+				os.Remove(file)
+			}
+			return
+		}
+	}
 	if ans.Status != "unsat" && ur.Quant {
 		// stage 2: full query with the quantified hypotheses
 		file2 := write(r.Name+"_full", g.query([]*Obligation{r.obl}, false))
